@@ -12,6 +12,9 @@
 #include "galois/PerThreadContainer.h"
 #include "galois/Bag.h"
 
+#ifdef VERIF_FLAVOUR_C
+#include "verif_rt.h"
+#endif
 #include <atomic>
 #include <thread>
 #include <algorithm>
@@ -23,7 +26,26 @@ typedef std::vector<VL> VVL;
 static vh::Out* out;
 static unsigned maxT;
 
+static bool g_ctl = false;
+static void arm(unsigned threads, uint64_t s) {
+#ifdef VERIF_FLAVOUR_C
+  if (!g_ctl) return;
+  verif::Config cfg;
+  cfg.mode = verif::M_CTL; cfg.seed = s; cfg.switch_pct = 10 + (int)(s % 70);
+  cfg.pct_depth = (s % 4 == 3) ? 1 + (int)((s >> 8) % 3) : 0;
+  cfg.max_steps = 2000000; cfg.threads = threads;
+  verif::configure(cfg);
+#endif
+}
+static void disarm() {
+#ifdef VERIF_FLAVOUR_C
+  if (!g_ctl) return;
+  verif::Config off;
+  verif::configure(off);
+#endif
+}
 static void jitter(vh::Rng& r) {
+  if (g_ctl) return;
   unsigned k = r.below(8);
   if (k == 0) std::this_thread::yield();
   else if (k == 1) for (volatile int i = 0; i < 200; ++i) {}
@@ -182,11 +204,13 @@ static VVL zeroRuns(galois::DynamicBitSet& b) {
 }
 static VL setBits(galois::DynamicBitSet& b) { VL v; for (size_t i = 0; i < b.size(); ++i) if (b.test(i)) v.push_back(i); return v; }
 
+static bool bitsetConcurrentOnly = false;
 static void bitsetCases(vh::Rng& rng, bool thorough) {
   galois::setActiveThreads(std::min(4u, maxT));
   // range reset at every alignment: start from all ones
   std::vector<size_t> sizes = {1, 2, 63, 64, 65, 127, 128, 130, 192};
   if (thorough) { sizes.push_back(129); sizes.push_back(256); sizes.push_back(200); }
+  if (bitsetConcurrentOnly) sizes.clear();
   for (size_t n : sizes) {
     galois::DynamicBitSet b;
     b.resize(n);
@@ -208,10 +232,12 @@ static void bitsetCases(vh::Rng& rng, bool thorough) {
     VVL sets(t), firsts(t);
     for (auto& s : sets) { unsigned m = rng.below(30); for (unsigned i = 0; i < m; ++i) s.push_back(rng.below(n)); }
     uint64_t seed = rng.next();
+    arm(t, seed);
     galois::on_each([&](unsigned tid, unsigned) {
       vh::Rng r(seed + tid);
       for (auto i : sets[tid]) { jitter(r); if (!a.set(i)) firsts[tid].push_back(i); }
     });
+    disarm();
     VL other;
     for (size_t i = 0; i < n; ++i) if (rng.coin(1, 3)) { b.set(i); other.push_back(i); }
     VL afterSet = setBits(a);
@@ -224,10 +250,12 @@ static void bitsetCases(vh::Rng& rng, bool thorough) {
     // concurrent single-bit reset of a random subset
     VVL resets(t), rfirst(t);
     for (auto& s : resets) { unsigned m = rng.below(20); for (unsigned i = 0; i < m; ++i) s.push_back(rng.below(n)); }
+    arm(t, seed * 3);
     galois::on_each([&](unsigned tid, unsigned) {
       vh::Rng r(seed * 3 + tid);
       for (auto i : resets[tid]) { jitter(r); if (a.reset(i)) rfirst[tid].push_back(i); }
     });
+    disarm();
     VL afterReset = setBits(a);
     out->line(Rec().str("k", "bitset").i("n", n).i("threads", t).raw("sets", vh::jarr2(sets)).raw("firsts", vh::jarr2(firsts))
                   .arr("after", afterSet).i("count", cnt).arr("offsets", offs).arr("other", other).arr("or", orr)
@@ -242,11 +270,12 @@ static void atomicCases(vh::Rng& rng, bool thorough) {
     unsigned t = 1 + rng.below(maxT);
     galois::setActiveThreads(t);
     VVL upd(t), olds(t);
-    for (auto& u : upd) { unsigned m = 1 + rng.below(30); for (unsigned i = 0; i < m; ++i) u.push_back((long long)rng.below(2000) - 1000); }
-    long long init = (long long)rng.below(2000) - 1000;
+    for (auto& u : upd) { unsigned m = 1 + rng.below(g_ctl ? 4 : 30); for (unsigned i = 0; i < m; ++i) u.push_back((long long)rng.below(2000) - 1000); }
+    long long init = g_ctl ? (k % 2 ? -1001 : 1001) : (long long)rng.below(2000) - 1000;
     int which = k % 4;
     std::atomic<long> cell(init);
     uint64_t seed = rng.next();
+    arm(t, seed);
     galois::on_each([&](unsigned tid, unsigned) {
       vh::Rng r(seed + tid);
       for (auto v : upd[tid]) {
@@ -261,6 +290,7 @@ static void atomicCases(vh::Rng& rng, bool thorough) {
         olds[tid].push_back(o);
       }
     });
+    disarm();
     const char* names[] = {"min", "max", "add", "sub"};
     out->line(Rec().str("k", "atomic").str("kind", names[which]).i("threads", t).i("init", init).raw("upd", vh::jarr2(upd))
                   .raw("olds", vh::jarr2(olds)).i("res", cell.load()));
@@ -285,10 +315,12 @@ static void unionFindCases(vh::Rng& rng, bool thorough) {
     }
     uint64_t seed = rng.next();
     std::vector<long> merged(t, 0);
+    arm(t, seed);
     galois::on_each([&](unsigned tid, unsigned) {
       vh::Rng r(seed + tid);
       for (auto& p : pairs[tid]) { jitter(r); if (nodes[p[0]].merge(&nodes[p[1]])) ++merged[tid]; }
     });
+    disarm();
     VL rep;
     for (unsigned i = 0; i < n; ++i) rep.push_back(nodes[i].findAndCompress() - &nodes[0]);
     VL rep2;
@@ -348,6 +380,19 @@ int main(int argc, char** argv) {
   bool thorough = std::string(argv[3]) == "thorough";
   galois::SharedMemSys G;
   maxT = std::min(8u, galois::substrate::getThreadPool().getMaxThreads());
+  g_ctl = argc > 4 && std::string(argv[4]) == "ctl";
+  if (g_ctl) {
+    // controlled schedules over the CAS loops and concurrent collections: small scope, many schedules
+    maxT = std::min(3u, maxT);
+    for (int rep = 0; rep < (thorough ? 12 : 3); ++rep) {
+      atomicCases(rng, false);
+      unionFindCases(rng, false);
+    }
+    bitsetConcurrentOnly = true;
+    bitsetCases(rng, false);
+    fprintf(stderr, "collections(ctl): %lld records\n", o.n);
+    return 0;
+  }
   reducersFor<int>("int", rng, thorough, true);
   reducersFor<long>("long", rng, thorough, true);
   reducersFor<unsigned>("unsigned", rng, thorough, false);
